@@ -473,7 +473,10 @@ func (pc ParseContext) compileBinop(ctx context.Context, b ast.Branch, c ast.Chi
 	}
 	for i, arg := range args[1:] {
 		op := ops[i].One("").(ast.Leaf).Scanner()
-		f := binops[op.String()]
+		f, has := binops[op.String()]
+		if !has {
+			return nil, fmt.Errorf("operator %s is not supported", op.String())
+		}
 		rhs, err := pc.CompileExpr(ctx, arg.(ast.Branch))
 		if err != nil {
 			return nil, err
